@@ -468,6 +468,14 @@ def check_dominance(idx: Index, rep: Report) -> None:
     # entry / others
     unpack = [s for s in walk_local(f.node) if isinstance(s, ast.Assign) and isinstance(s.targets[0], ast.Tuple) and unparse(s.value) == f"{region}.blocks"]
     if len(unpack) != 1 or len(unpack[0].targets[0].elts) != 2 or not isinstance(unpack[0].targets[0].elts[1], ast.Starred):
+        # no `entry, *blocks = region.blocks`: if the entry is bound on its own and the dominator sets are initialised and
+        # swept over *all* blocks of the region, the entry takes part in the meet like any other block - positive evidence
+        ens = sorted(_entry_names(f, region))
+        all_loops = [w_ for w_ in walk_local(f.node) if isinstance(w_, ast.For) and unparse(w_.iter) == f"{region}.blocks" and any(isinstance(x_, ast.Assign) and unparse(x_.targets[0]).startswith("self._dominance[") for x_ in walk_local(w_))]
+        seeded = any(isinstance(s_, ast.Assign) and any(unparse(s_.targets[0]) == f"self._dominance[{en_}]" and unparse(s_.value) == f"{{{en_}}}" for en_ in ens) for s_ in walk_local(f.node))
+        if ens and all_loops and not seeded:
+            r.fail(f.fq + ":entry-init", Finding("C24.R3", f.fq, "entry-in-sweep", f"the dominator sets are initialised and swept for every block of `{region}.blocks`, the entry `{ens[0]}` included, and the entry is never fixed to {{{ens[0]}}}: when a reachable block branches back to the entry (a loop header that is the first block), the entry keeps the blocks of that cycle as dominators and so does everything below it", f.loc))
+            return
         raise AnalysisError(f"{f.fq}: `entry, *blocks = region.blocks` not recognised")
     entry = unparse(unpack[0].targets[0].elts[0])
     others = unparse(unpack[0].targets[0].elts[1].value)
